@@ -140,11 +140,11 @@ func (g *Gen) execAppend(in ssa.Instruction, args []*Val, rt types.Type) *Val {
 			tb, toff := sx("sl-base", tl.T), sx("sl-off", tl.T)
 			// in place: slots [off+ln, off+ln+k) of base take the appended values
 			g.assert(imp(g.curGuard, imp(inplace, fmt.Sprintf(
-				"(forall ((r Int)) (! (= (select %s r) (ite (and (= (elem-base r) %s) (= (refkind r) 2) (<= (+ %s %s) (elem-idx r)) (< (elem-idx r) (+ %s %s %s))) (select %s (elemref %s (+ %s (- (elem-idx r) (+ %s %s))))) (select %s r))) :pattern ((select %s r))))",
+				"(forall ((r Int)) (! (= (select %s r) (ite (and (= (elem-base r) %s) (= (refkind r) 2) (<= (+ %s %s) (elem-idx r)) (< (elem-idx r) (+ %s %s %s))) (select %s (elemref %s (ix %s (- (elem-idx r) (+ %s %s))))) (select %s r))) :pattern ((select %s r))))",
 				n, base, off, ln, off, ln, k, old, tb, toff, off, ln, old, n))))
 			// reallocated: the new base holds the old elements followed by the appended ones
 			g.assert(imp(g.curGuard, imp(not(inplace), fmt.Sprintf(
-				"(forall ((r Int)) (! (= (select %s r) (ite (and (= (elem-base r) %s) (= (refkind r) 2) (<= 0 (elem-idx r)) (< (elem-idx r) %s)) (ite (< (elem-idx r) %s) (select %s (elemref %s (+ %s (elem-idx r)))) (select %s (elemref %s (+ %s (- (elem-idx r) %s))))) (select %s r))) :pattern ((select %s r))))",
+				"(forall ((r Int)) (! (= (select %s r) (ite (and (= (elem-base r) %s) (= (refkind r) 2) (<= 0 (elem-idx r)) (< (elem-idx r) %s)) (ite (< (elem-idx r) %s) (select %s (elemref %s (ix %s (elem-idx r)))) (select %s (elemref %s (ix %s (- (elem-idx r) %s))))) (select %s r))) :pattern ((select %s r))))",
 				n, nb, newLen, ln, old, base, off, old, tb, toff, ln, old, n))))
 		})
 		return &Val{T: res, Ty: rt}
@@ -157,7 +157,7 @@ func (g *Gen) execAppend(in ssa.Instruction, args []*Val, rt types.Type) *Val {
 		srcAt = func(j string) string { return sx("strbyte", tl.T, j) }
 	} else {
 		tb, toff := sx("sl-base", tl.T), sx("sl-off", tl.T)
-		srcAt = func(j string) string { return sel(sel(h, tb), sx("+", toff, j)) }
+		srcAt = func(j string) string { return sel(sel(h, tb), sx("ix", toff, j)) }
 	}
 	// single appended element (the overwhelmingly common case): no quantifier in place
 	one := false
@@ -175,7 +175,7 @@ func (g *Gen) execAppend(in ssa.Instruction, args []*Val, rt types.Type) *Val {
 		inplaceArr = a
 	}
 	na := g.freshConst("arr", "(Array Int "+es+")")
-	g.assert(fmt.Sprintf("(forall ((j Int)) (! (=> (and (<= 0 j) (< j %s)) (= (select %s j) (ite (< j %s) (select %s (+ %s j)) %s))) :pattern ((select %s j))))",
+	g.assert(fmt.Sprintf("(forall ((j Int)) (! (=> (and (<= 0 j) (< j %s)) (= (select %s j) (ite (< j %s) (select %s (ix %s j)) %s))) :pattern ((select %s j))))",
 		newLen, na, ln, oldArr, off, srcAt(sx("-", "j", ln)), na))
 	g.setHeap(s, c.Name, ite(eq(k, "0"), h, ite(inplace, store(h, base, inplaceArr), store(h, nb, na))))
 	return &Val{T: res, Ty: rt}
